@@ -1,5 +1,6 @@
 import XmlRsModel.Dom
 import XmlRsModel.Thm.C13
+import XmlRsModel.Lemmas.DomEffect
 import XmlRsModel.Lemmas.DataValid
 import XmlRsModel.Lemmas.DataValidPI
 /-! Property C15: edits that succeed keep the document serializable and faithful.
@@ -253,6 +254,31 @@ theorem data_edit_validates_outcome (s s' : St) (n : Nat) (f : Str → Option St
     · simp only [hv] at h
       repeat' split at h
       all_goals (first | (simp at h; done) | (rename_i hcontra; simp at hcontra))
+
+/-- the data a node of kind `k` holds after a successful edit whose outcome is `d` -/
+def storedData (k : Kind) (d : Str) : Str := match k with | .pi _ => storedPIData d | _ => d
+
+/-- EFFECT and FRAME of a data edit that succeeds (set / append / insert / delete / replace): the node holds the
+    outcome of the edit - which passed the validity predicate of its kind -, and no other node of the document or of
+    any detached tree changed its identity, kind or data -/
+theorem data_edit_effect (s s' : St) (n : Nat) (f : Str → Option Str) (nn : Node) (hi : Inv s)
+    (hn : s.find n = some nn) (h : step.dataOp s n f = (s', .ok)) :
+    ∃ d', f nn.data = some d' ∧ validData nn.kind d' = true ∧
+      s'.find n = some (nn.withData (storedData nn.kind d')) ∧
+      ∀ m, m ≠ n → (s'.find m).map sigD = (s.find m).map sigD := by
+  obtain ⟨d', hf, hv⟩ := data_edit_validates_outcome s s' n f nn hn h
+  refine ⟨d', hf, hv, ?_⟩
+  have hs' : s' = s.update n (Node.withData (storedData nn.kind d')) := by
+    unfold step.dataOp at h
+    simp only [hn, hf] at h
+    rw [hv] at h
+    cases hk : nn.kind <;> simp only [hk, isCharData, storedData, Bool.false_or, Bool.true_or, if_true, if_false,
+      Bool.false_eq_true, Prod.mk.injEq, and_true, reduceCtorEq, and_false] at h ⊢ <;> first | exact h.symm | exact absurd h (by simp)
+  subst hs'
+  refine ⟨find_update s n _ (fun x => by cases x; rfl) nn hi.1 hn, fun m hm => ?_⟩
+  unfold St.find
+  rw [update_roots]
+  exact findInL_updateInL_other n m _ hm s.roots
 
 /-- a refused edit leaves the node as it was -/
 theorem refused_edit_changes_nothing (s s' : St) (n : Nat) (f : Str → Option Str) (e : Exc)
